@@ -790,14 +790,41 @@ def fam_revert(s, tp=None, forced_rev=None, again=True):
     if not opt:
         opt.append("plain")
 
+    sel_all = None
+    if sel is not None:
+        # a selected name denotes an entry (by its current, basis or target name); everything that lives below that
+        # entry in any of the three trees is selected with it
+        sel_all = set(sel)
+        wt0 = s.wt(tp)
+        with wt0.lock_read():
+            trees3 = [wt0, wt0.basis_tree()] + ([target] if target is not None else [])
+            for sp in sel:
+                for t in trees3:
+                    try:
+                        with t.lock_read():
+                            fid = t.path2id(sp)
+                    except Exception:
+                        fid = None
+                    if fid is None:
+                        continue
+                    for t2 in trees3:
+                        try:
+                            with t2.lock_read():
+                                p2 = t2.id2path(fid)
+                            if p2 is not None:
+                                sel_all.add(p2)
+                        except Exception:
+                            pass
+        del wt0
+
     def asked(u):
         if not no_backup:
             return False
         if u["fid"] is None:
             return False  # revert never owns unversioned files
-        if sel is None:
+        if sel_all is None:
             return True
-        return any(_inside_any(p, sel) for p in _all_paths_of(u, [target] if target is not None else []))
+        return any(_inside_any(p, sel_all) for p in _all_paths_of(u, [target] if target is not None else []))
 
     def keyfn(u):
         if target is not None and u["cls"] == "added" and _text_by_id(target, u["fid"]) is not None:
@@ -851,10 +878,14 @@ def fam_remove(s):
         if not strategy.startswith("no-backup"):
             return False
         if "+new" in strategy:
-            return u["fid"] is not None and u["basis_path"] is None and (not sel or _inside_any(u["path"], sel))
+            # --new narrows the selection to never-committed entries, but a new directory takes everything below it along;
+            # with --no-backup anything inside the named paths (or anywhere, when none is named) was offered for destruction
+            return not sel or _inside_any(u["path"], sel)
         return _inside_any(u["path"], sel)
 
     def keyfn(u):
+        if "+new" in strategy and sel and not _inside_any(u["path"], sel):
+            return "new-widened-to-parent-directory"
         if u["fid"] is None and u.get("at_basis_path"):
             return "unversioned-file-at-basis-path"
         return None
